@@ -919,6 +919,27 @@ def run_pairs(ctx: core.Ctx, lab: Lab, pairs: typing.List[dict], compilers: typi
     # informational only (never a verdict)
     ctx.extra["phases"] = {"nnvg_runs": n_gen, "generate_s": round(t1 - t0, 1), "compiles": len(jobs), "compile_s": round(time.time() - t1, 1)}
     failures = []
+    # The option sets compared below are the ones the tree itself reports (--list-configuration).  They are not trusted
+    # blindly: a value that a spec requests EXPLICITLY must be the value in effect (the language-standard shorthands, which
+    # are documented to expand, excepted) -- otherwise two different requests could collapse into one "identical" pair and
+    # be expected to compile together (seeded change C17-C: C `target_endianness: big` silently rewritten to `any`).
+    seen_specs = set()
+    for p in pairs:
+        for side in ("A", "B"):
+            sp = p[side]
+            k = spec_key(sp)
+            if k in seen_specs:
+                continue
+            seen_specs.add(k)
+            for opt, want in sp["opts"].items():
+                if opt == "std":
+                    continue
+                got = lab.eff[k].get(opt, ABSENT)
+                ctx.event("requested-vs-effective.compared")
+                if got != want:
+                    case = {"lang": p["lang"], "A": sp, "B": sp, "typeset": {k2: v for k2, v in lab.typesets[p["typesets"][0]].items() if k2 != "traits"}, "compiler": compilers[0], "requested_only": True}
+                    failures.append((f"{p['lang']}|requested-option-value-not-in-effect|{opt}", f"[{p['lang']}] {opt}={want!r} requested explicitly (via {sp['via']}: {sp['opts']!r}) but the generator works with {got!r}: "
+                                     f"headers generated for {want!r} and for {got!r} carry the same guard value and compile together", case))
     for (p, tid, comp), res in zip(jobs, results):
         lang = p["lang"]
         ea, eb = lab.eff[spec_key(p["A"])], lab.eff[spec_key(p["B"])]
